@@ -665,7 +665,9 @@ class _Marker:
 class Check(PropertyCheck):
     id = 'C14'
     props_module = 'Props.C14'
-    models = {'sig': 'XSig.v'}
+    models = {'sig': 'XSig.v', 'sig_ir': 'XSigIR.v'}
+    needs_gen = True
+    gen_modules = ['gen_c14_code']
     rule = ('every valid parameter layout of <= N parameters over {positional-only, positional-or-keyword, *args, '
             'keyword-only, **kwargs} x default present/absent x annotation present/absent (N = 3 quick, 4 thorough; '
             'return annotation cycling over none / None / int / a string), plus random longer signatures, methods, '
@@ -677,13 +679,22 @@ class Check(PropertyCheck):
         'extraction: ExtrOcamlBasic only; OCaml 4.13.1; coq/ocaml/driver.ml',
         'Spec/SigStr.v (inspect.Signature.__init__/__str__, the def parameter grammar, how ast.arguments stores '
         'defaults) hand-written after CPython 3.12 and validated on every run against inspect / ast.parse',
+        'translator harness/gen/gen_c14_code.py (fail-closed; inlines local closures, reads x=[]/x={} + append/setitem and '
+        'generators as produced sequences) and the interpreter Model/SigIR.v as the stated meaning of the Python constructs '
+        'it covers; primitives: AST accessors, len/enumerate/zip/subscript, dict.get, unstring_annotation (=Model.Sig), the '
+        'formatter classes as identity, inspect parameter constructor',
         'correspondence harness harness/c14.py + harness/impl/c14_sig.py (real builder via System.systemBuilder, '
         'pages.format_signature / format_function_def / format_overloads, flattened, tags stripped)',
         'modelled not verified: text of a default/annotation expression (C15); html2stan re-parse of the string (C10); '
         'decorator lines; CPython ast.parse as oracle for what a string annotation spells',
     ]
     manifest = {
-        'text': ('Theorems over Model/Sig.v (pydoctor _handleFunctionDef / _annotations_from_function / unstring_annotation / '
+        'text': ('The source of _annotations_from_function and of the parameter-building part of _handleFunctionDef is '
+                 'translated on every run into the producer language of Model/SigIR.v (Gen/SigCode.v) and '
+                 'C14_code_annotations_is_model / C14_code_parameters_is_model prove, for every definition the parser can '
+                 'produce, that interpreting THAT code is the model (C14_code_default_alignment states the property on the '
+                 'translated code); the interpretation is also run against pydoctor as a third correspondence leg. '
+                 'Theorems over Model/Sig.v (pydoctor _handleFunctionDef / _annotations_from_function / unstring_annotation / '
                  'format_signature) and Spec/SigStr.v (CPython inspect.Signature, def grammar) for parameter lists of any '
                  'length: defaults are right-aligned exactly as the parser stored them and get_default never fails '
                  '(C14_default_alignment), kinds come out in Signature order so only duplicate names are rejected '
@@ -735,6 +746,10 @@ class Check(PropertyCheck):
                     ovs = ov2 if ctx in ('static', 'func', 'stub') else \
                         [([['self', POK, None, None]] + p, r) for p, r in ov2]
                     front.append(make_case(ps, None, ctx, ovs, ov_pos=pos, extra=extra, spell=spell))
+        # constants that compare equal but are different defaults (True == 1 == 1.0, False == 0 == 0.0), in one module
+        front.append(make_case([['a', POK, 'True', None], ['b', POK, '1', None], ['c', POK, '1.0', None],
+                                ['d', KW, 'False', None], ['e', KW, '0', None], ['g', KW, '0.0', 'int'], ['h', KW, '0j', None]], None))
+        front.append(make_case([['a', POK, '1', 'int'], ['b', POK, 'True', 'bool'], ['c', KW, '0', None], ['d', KW, 'False', None]], 'int', 'method'))
         corpus[0:0] = front
         for e in CORPUS_DEFAULTS:
             corpus.append(make_case([['p', POK, e, None]], None))
@@ -893,11 +908,42 @@ class Check(PropertyCheck):
         self.stats['distinct_nontrivial'] = len(seen_src)
         for c in cases[700:702] + cases[-130:-128] + cases[-2:]:
             self.sample({'q': c['q'], 'stream': c['stream'], 'src': c['src'][len(HEADER):]})
+        out.extend(self.ir_leg(cases, impl))
         out.extend(self.unstring_check())
         out.extend(self.to_ast_check(cases))
         if self.tier == 'thorough':
             out.extend(self.vm_crosscheck(cases))
         return out
+
+    # -------------------------------------------------------------- third leg: the translated code, interpreted
+    def ir_leg(self, cases: List[Dict[str, Any]], impl: List[Any]) -> List[Violation]:
+        """Gen/SigCode.v (the current source of _annotations_from_function and of the parameter-building part of
+        _handleFunctionDef, translated by harness/gen/gen_c14_code.py) interpreted by Model/SigIR.v, against what the
+        real code built: Function.annotations (in order) and Function.signature.parameters. Single definitions only."""
+        sel, wires = [], []
+        for c, o in zip(cases, impl):
+            if 'err' in o or not o.get('found') or o.get('overloads') or o.get('primary') is None:
+                continue
+            try:
+                defs = cc.find_defs(ast.parse(c['src']), c['q'])
+            except (SyntaxError, ValueError):
+                continue
+            if len(defs) != 1 or any(isinstance(r, int) and r >= 10 for r in o.get('reports', [])):
+                continue            # redefinitions / Signature() rejected the list: nothing of the list is kept
+            sel.append((c, o))
+            wires.append(enc(cc.enc_def(defs[0])))
+        outs = self.model('sig_ir', wires)
+        res: List[Violation] = []
+        for (c, o), w in zip(sel, outs):
+            m = dec(w)
+            got = [cc.norm(o['annot_items']), cc.norm(o['primary']['params'])]
+            if m != got and len(res) < 5:
+                res.append(Violation('correspondence', 'the translated source (Gen/SigCode.v interpreted by Model.SigIR) and '
+                                     'pydoctor disagree on Function.annotations / the parameter list: the translator '
+                                     'harness/gen/gen_c14_code.py or the interpreter is wrong about this code',
+                                     case=c, expected=m, observed=got))
+        self.stats['ir_leg_cases'] = len(sel)
+        return res
 
     # -------------------------------------------------------------- shrinking: drop parameters while it still fails
     def shrink(self, case: Dict[str, Any], msg: str) -> Dict[str, Any]:
